@@ -79,6 +79,7 @@ package geojson
 //@   entry use rootGlobalsInit()
 //@   requires keys != nil && opts != nil
 //@   ensures Shape: result2 != nil ==> result1 == nil
+//@   ensures Fresh: result1 != nil ==> !old($alloc)[result1]
 //@   call 0 iterinv 0 <= count && count <= 4
 //@   call 0 iterstop 0 <= count && count <= 4
 //@   loop 0 invariant 2 <= i && i <= count && count <= 4 && ex != nil && !old($alloc)[ex] && len(ex.values) == count-2
@@ -88,7 +89,6 @@ package geojson
 //@ func parseJSONPoint
 //@   props C05 C07 C08
 //@   arith order
-//@   only post. safe.
 //@   dead cover.ret1
 //@   entry use rootGlobalsInit()
 //@   requires keys != nil && opts != nil
@@ -103,17 +103,18 @@ package geojson
 //@   trusted nested gjson closures appending to captured slices: text-level decoding is assumed (A-GJSON); bounded differential check not offered
 //@   requires keys != nil && opts != nil
 //@   ensures Shape: result2 != nil ==> (result1 == nil && len(result0) == 0)
+//@   ensures Fresh: result1 != nil ==> !old($alloc)[result1]
 //@ func parseJSONPolygonCoords
 //@   props C05 C07
 //@   arith order
 //@   trusted triple-nested gjson closures with element stores into a captured slice of slices: assumed (A-GJSON)
 //@   requires keys != nil && opts != nil
 //@   ensures Shape: result2 != nil ==> (result1 == nil && len(result0) == 0)
+//@   ensures Fresh: result1 != nil ==> !old($alloc)[result1]
 
 //@ func parseJSONLineString
 //@   props C05 C07 C08
 //@   arith order
-//@   only post. safe.
 //@   dead cover.ret2
 //@   entry use rootGlobalsInit()
 //@   requires keys != nil && opts != nil
@@ -123,13 +124,13 @@ package geojson
 //@ func parseJSONPolygon
 //@   props C05 C07 C08
 //@   arith order
-//@   only post. safe.
 //@   dead cover.ret3
 //@   entry use rootGlobalsInit()
 //@   requires keys != nil && opts != nil
 //@   ensures Shape: okShape(result0, result1)
 //@   ensures RequireValid: result1 == nil && opts.RequireValid ==> oValidS(result0)
-//@   loop 0 invariant true
+//@   loop 0 invariant Frame: (forall P *geometry.Poly :: old($alloc)[P] ==> (P.Exterior == old(P.Exterior) && P.Holes == old(P.Holes))) && (forall q *Polygon :: old($alloc)[q] ==> q.extra == old(q.extra)) && (forall e *extra :: old($alloc)[e] ==> e.members == old(e.members))
+//@   loop 0 invariant FreshX: extra != nil ==> !old($alloc)[extra]
 
 // ---- leaf constructors
 //@ func NewRect
@@ -148,7 +149,6 @@ package geojson
 //@ func parseJSONFeature
 //@   props C05 C07 C08
 //@   arith order
-//@   only post. dec.
 //@   decreases len(keys.rGeometry.Raw) + 1 ; 0
 //@   dead cover.ret2
 //@   entry use rootGlobalsInit()
@@ -178,7 +178,7 @@ package geojson
 //@ func parseJSONMultiLineString
 //@   props C05 C07 C08
 //@   arith order
-//@   only post.
+//@   only post.   // collection invariants of the children (CollKidsInv = ObjInv) are domain-restricted: not established for arbitrary documents
 //@   dead cover.ret3
 //@   entry use rootGlobalsInit()
 //@   requires keys != nil && opts != nil
@@ -188,7 +188,7 @@ package geojson
 //@ func parseJSONMultiPolygon
 //@   props C05 C07 C08
 //@   arith order
-//@   only post.
+//@   only post.   // collection invariants of the children (CollKidsInv = ObjInv) are domain-restricted: not established for arbitrary documents
 //@   dead cover.ret3
 //@   entry use rootGlobalsInit()
 //@   requires keys != nil && opts != nil
@@ -198,7 +198,7 @@ package geojson
 //@ func parseJSONGeometryCollection
 //@   props C05 C07 C08
 //@   arith order
-//@   only post. dec.
+//@   only post. dec.   // collection invariants of the children (CollKidsInv = ObjInv) are domain-restricted: not established for arbitrary documents
 //@   decreases len(keys.rGeometries.Raw) + 1 ; 0
 //@   dead cover.ret3
 //@   call 0 use forall r gjson.Result :: AGjsonSub(r, $idx)
@@ -212,7 +212,7 @@ package geojson
 //@ func parseJSONFeatureCollection
 //@   props C05 C07 C08
 //@   arith order
-//@   only post. dec.
+//@   only post. dec.   // collection invariants of the children (CollKidsInv = ObjInv) are domain-restricted: not established for arbitrary documents
 //@   decreases len(keys.rFeatures.Raw) + 1 ; 0
 //@   dead cover.ret3
 //@   call 0 use forall r gjson.Result :: AGjsonSub(r, $idx)
